@@ -496,6 +496,8 @@ class Wrap:
             self.scope[f] = (named | traits | PRELUDE_TRAITS) & self.known_traits
         self.droppable = {im.ty for im in self.impls if im.trait == "Drop"}
         self.mgr_defs = self.read_mgr(mgr_text)
+        self.mgr2_defs = {}      # the same for Gen/FunsMgr2.lean (tools/translate_mgr2.py), when it is given
+        self.uses_mgr2 = False
         self.done, self.order, self.stack = {}, [], []
         self.counter = 0
 
@@ -1504,7 +1506,14 @@ class Wrap:
             for pt in ptys:
                 if pt[0] == "tvar" and pt[1] not in self.cur.tvars:
                     self.cur.tvars.append(pt[1])
-            have = self.mgr_defs.get(target.name)
+            have, ns = self.mgr_defs.get(target.name), "FunsMgr"
+            if have is None and target.name in self.mgr2_defs:
+                # Gen/FunsMgr2.lean has the method; it is used when its type is the one this call needs (a method with a
+                # callback is there under another convention: the list of the calls, and stays a parameter here)
+                hp2, hr2 = self.mgr2_defs[target.name]
+                if [norm(t) for _, t in hp2] == [norm(t) for t in lean_params] and norm(hr2) == norm(lean_ret):
+                    have, ns = (hp2, hr2), "FunsMgr2"
+                    self.uses_mgr2 = True
             if have is None:
                 pname = f"{MANAGER}_{target.name}"
                 ety = " → ".join(atom(p) for p in lean_params + [lean_ret])
@@ -1513,7 +1522,7 @@ class Wrap:
                 head = [pname]
             else:
                 hp, hr = have
-                head = [f"FunsMgr.{MANAGER}_{target.name}"]
+                head = [f"{ns}.{MANAGER}_{target.name}"]
                 if hp and hp[0] == ("fuel", "Nat"):
                     head.append("fuel")
                     self.cur.fuel = True
@@ -1619,9 +1628,11 @@ hand.  `Props/C01GenIo.lean` and `Props/C08GenWrap.lean` prove the definitions e
   monad and is not a parameter.
 * A call of a method of the manager (`self.volume_mgr.read(..)`) is a call of its machine translation in
   `Gen/FunsMgr.lean` (with its `fuel`, when it has one: then the caller has a `fuel` parameter too, passed on
-  unchanged).  A method of the manager that `Gen/FunsMgr.lean` does not contain is an explicit PARAMETER of the
-  definitions that reach it (`VolumeManager_make_dir_in_dir : Nat → List Nat → M Unit`); the parameter goes away
-  by itself when translate_mgr.py gains the method.  A generic parameter bound by `ToShortFileName` is a name
+  unchanged), or in `Gen/FunsMgr2.lean` (tools/translate_mgr2.py: `find_directory_entry`, `make_dir_in_dir`).  A method
+  of the manager that neither file contains WITH THE TYPE THE CALL NEEDS is an explicit PARAMETER of the definitions
+  that reach it (`VolumeManager_iterate_dir : Nat → F → M Unit`: `Gen/FunsMgr2.lean` has `iterate_dir` and
+  `iterate_dir_lfn` under another convention for the callback, the list of its calls); the parameter goes away by
+  itself when a translation of that type exists.  A generic parameter bound by `ToShortFileName` is a name
   (`List Nat`, as in `Gen/FunsMgr.lean`); any other generic parameter (the callbacks `F: FnMut(..)`) and
   `LfnBuffer` are abstract types, passed through untouched (a `&mut LfnBuffer` comes back with the result, like a
   `&mut [u8]`).
@@ -1704,7 +1715,7 @@ def ofOption {{α : Type}} (e : Err) : Option α → M α
 
 def render_wrap(T):
     kinds = " | ".join(v for v, _ in EXT_ENUMS["ErrorKind"])
-    lines = ["import Sdmmc.Gen.FunsMgr\n", LEAN_HEADER_WRAP, "set_option linter.unusedVariables false\n",
+    lines = ["import Sdmmc.Gen.FunsMgr2\n" if T.uses_mgr2 else "import Sdmmc.Gen.FunsMgr\n", LEAN_HEADER_WRAP, "set_option linter.unusedVariables false\n",
              "namespace Sdmmc.Gen.FunsWrap\n", "open Sdmmc.Model\n", PRELUDE_WRAP.format(kinds=kinds)]
     for key in T.order:
         d = T.done[key]
@@ -1723,11 +1734,15 @@ def render_wrap(T):
     return "\n".join(lines)
 
 
-def generate_wrap(read_src, targets=None, mgr_text=None):
+def generate_wrap(read_src, targets=None, mgr_text=None, mgr2_text=None):
     if mgr_text is None:
         import translate_mgr
         mgr_text, _ = translate_mgr.generate_mgr(read_src)
+    if mgr2_text is None:
+        import translate_mgr2
+        mgr2_text, _ = translate_mgr2.generate_mgr2(read_src, mgr_text=mgr_text)
     T = Wrap(read_src, mgr_text)
+    T.mgr2_defs = T.read_mgr(mgr2_text)
     for ty, trait, name in (TARGETS if targets is None else targets):
         T.translate(T.find(ty, trait, name))
     text = render_wrap(T)
